@@ -128,6 +128,8 @@ package orefafs
 
 //@ func (*node).size
 //@   requires[C08] held(nd.mu)
+//@   ensures[C02] nd.mode&fs.ModeDir == 0 ==> r0 == len(nd.data)
+//@   ensures[C02] nd.mode&fs.ModeDir != 0 ==> r0 == len(nd.children)
 //@   modifies nothing
 //@ func (*node).setOwner
 //@   requires[C08] wheld(nd.mu)
